@@ -72,15 +72,15 @@ Proof. exact naming_witness_ok. Qed.
 Theorem C15_event_name_to_function : forall s, exists o, event_fn_b s = Ok o.
 Proof. intros s. apply safe_ok, event_fn_safe. Qed.
 
-(* compute_variant_name (new with the variant-rule repair) calls apply_to_variant, whose CamelCase arm
-   slices variant[..1]: refuted for a variant name starting with a non-ASCII letter, safe otherwise *)
-Theorem C15_variant_refuted :
+(* compute_variant_name (new with the variant-rule repair, CamelCase arm guarded at the call site):
+   returns for every rule and every byte string; the crate's apply_to_variant(CamelCase) would panic
+   on a variant name starting with a non-ASCII letter, and is no longer reached *)
+Theorem C15_variant : forall r s, exists o, variant_b r s = Ok o.
+Proof. intros r s. apply safe_ok, variant_safe. Qed.
+Theorem C15_variant_witness :
   let etat := map ascii_of_nat [195; 137; 116; 97; 116] in
-  utf8 etat = true /\ kf_C15_variant etat = true /\ apply_to_variant_b RCamel etat = Panic.
-Proof. exact variant_refuted. Qed.
-Theorem C15_variant : forall r s, utf8 s = true -> (r = RCamel -> kf_C15_variant s = false) ->
-  exists o, apply_to_variant_b r s = Ok o.
-Proof. intros r s H K. apply safe_ok, variant_safe; auto. apply utf8_wf, H. Qed.
+  utf8 etat = true /\ apply_to_variant_b RCamel etat = Panic /\ variant_b RCamel etat = Ok etat.
+Proof. exact variant_witness_ok. Qed.
 
 (* termination: the fuel of every fuelled string recursion suffices, also inside the defect classes *)
 Theorem C15_total : forall s, utf8 s = true ->
@@ -110,9 +110,9 @@ Proof. vm_compute. auto. Qed.
 Example C15_ex_naming :
   let n := L "user_" ++ ex_bytes [195; 169] ++ L "_id" in
   utf8 n = true /\ naming_b RCamel n = Ok (L "user" ++ ex_bytes [195; 169] ++ L "Id") /\
-  kf_C15_variant (L "InProgress") = false /\ apply_to_variant_b RCamel (L "InProgress") = Ok (L "inProgress") /\
-  apply_to_variant_b RScreamingSnake (L "InProgress") = Ok (L "IN_PROGRESS").
-Proof. vm_compute. auto 6. Qed.
+  variant_b RCamel (L "InProgress") = Ok (L "inProgress") /\
+  variant_b RScreamingSnake (L "InProgress") = Ok (L "IN_PROGRESS").
+Proof. vm_compute. auto. Qed.
 (* the recorded data point of DESIGN section 11 and an input with multi-byte characters and unbalanced brackets *)
 Example C15_ex_types :
   parse_type_structure_b (L "Result<(HashMap<String, User>, Inner), String>") = Ok (TRes (TCustom (L "(HashMap<String"))) /\
@@ -139,6 +139,6 @@ Print Assumptions C15_serde.
 Print Assumptions C15_naming.
 Print Assumptions C15_naming_witness.
 Print Assumptions C15_event_name_to_function.
-Print Assumptions C15_variant_refuted.
 Print Assumptions C15_variant.
+Print Assumptions C15_variant_witness.
 Print Assumptions C15_total.
